@@ -12,6 +12,132 @@ use crate::{
 
 pub struct C09;
 
+/// The same gate, reached the way applications reach it: `Builder::verify_version(..)` and
+/// `connect_blocking` / `connect_async` over loopback TCP or UDP. The peer sends the scenario's
+/// frames (one datagram per frame on UDP) after the handshake; each read is compared with the
+/// model's verdict for that frame. Only version-related disagreements count.
+fn builder_gate_run(sc: &StreamScenario, proto: u8) -> (Vec<crate::oracle::Violation>, bool) {
+    use std::io::{Read, Write};
+    use crate::link::AppRes;
+    use crate::model::{expect_for, split_frames, Expect, FrameKind};
+    let frames: Vec<Vec<u8>> = split_frames(sc.mode, &sc.inbound)
+        .iter()
+        .filter(|f| f.kind == FrameKind::Complete)
+        .take(8)
+        .map(|f| sc.inbound[f.start..f.start + f.len].to_vec())
+        .collect();
+    let mut vio = Vec::new();
+    let tag = format!("[builder/{}/{:?}/{:?}]", if proto == 0 { "tcp" } else { "udp" }, sc.imp, sc.mode);
+    let mode = sc.mode.to_mode();
+    let verify = sc.verify_version;
+    let imp = sc.imp;
+    let results: Result<Vec<AppRes>, String> = (|| {
+        let to_res = |r: insim::Result<insim::Packet>| match r {
+            Ok(p) => AppRes::Pkt(format!("{:?}", p)),
+            Err(e) => AppRes::from_err(&e),
+        };
+        if proto == 0 {
+            let listener = std::net::TcpListener::bind("127.0.0.1:0").map_err(|e| e.to_string())?;
+            let addr = listener.local_addr().map_err(|e| e.to_string())?;
+            let b = insim::tcp(addr).verify_version(verify).mode(mode);
+            let serve = |listener: &std::net::TcpListener| -> Result<std::net::TcpStream, String> {
+                let (mut s, _) = listener.accept().map_err(|e| e.to_string())?;
+                let mut isi = [0u8; 44];
+                s.read_exact(&mut isi).map_err(|e| e.to_string())?;
+                for f in &frames {
+                    s.write_all(f).map_err(|e| e.to_string())?;
+                }
+                Ok(s)
+            };
+            match imp {
+                Imp::Blocking => {
+                    let mut c = b.connect_blocking().map_err(|e| format!("connect: {:?}", e))?;
+                    let _srv = serve(&listener)?;
+                    Ok(frames.iter().map(|_| to_res(c.read())).collect())
+                },
+                Imp::Tokio => {
+                    let rt = tokio::runtime::Builder::new_current_thread().enable_all().build().unwrap();
+                    rt.block_on(async {
+                        let mut c = b.connect_async().await.map_err(|e| format!("connect: {:?}", e))?;
+                        let _srv = serve(&listener)?;
+                        let mut v = Vec::new();
+                        for _ in &frames {
+                            v.push(match tokio::time::timeout(std::time::Duration::from_secs(3), c.read()).await {
+                                Err(_) => AppRes::Other("no result within 3 s".into()),
+                                Ok(r) => to_res(r),
+                            });
+                        }
+                        Ok(v)
+                    })
+                },
+            }
+        } else {
+            let peer = std::net::UdpSocket::bind("127.0.0.1:0").map_err(|e| e.to_string())?;
+            let addr = peer.local_addr().map_err(|e| e.to_string())?;
+            let _ = peer.set_read_timeout(Some(std::time::Duration::from_secs(3)));
+            let b = insim::udp(addr, None).verify_version(verify).mode(mode);
+            let serve = |peer: &std::net::UdpSocket| -> Result<(), String> {
+                let mut buf = [0u8; 2048];
+                let (_, from) = peer.recv_from(&mut buf).map_err(|e| e.to_string())?;
+                for f in &frames {
+                    let _ = peer.send_to(f, from).map_err(|e| e.to_string())?;
+                }
+                Ok(())
+            };
+            match imp {
+                Imp::Blocking => {
+                    let mut c = b.connect_blocking().map_err(|e| format!("connect: {:?}", e))?;
+                    serve(&peer)?;
+                    Ok(frames.iter().map(|_| to_res(c.read())).collect())
+                },
+                Imp::Tokio => {
+                    let rt = tokio::runtime::Builder::new_current_thread().enable_all().build().unwrap();
+                    rt.block_on(async {
+                        let mut c = b.connect_async().await.map_err(|e| format!("connect: {:?}", e))?;
+                        serve(&peer)?;
+                        let mut v = Vec::new();
+                        for _ in &frames {
+                            v.push(match tokio::time::timeout(std::time::Duration::from_secs(3), c.read()).await {
+                                Err(_) => AppRes::Other("no result within 3 s".into()),
+                                Ok(r) => to_res(r),
+                            });
+                        }
+                        Ok(v)
+                    })
+                },
+            }
+        }
+    })();
+    let results = match results {
+        Ok(r) => r,
+        Err(_) => return (vio, false),
+    };
+    for (i, (f, r)) in frames.iter().zip(results.iter()).enumerate() {
+        let e = expect_for(sc.mode, verify, f);
+        let ok = match (&e, r) {
+            (Expect::Pkt { dbg, .. }, AppRes::Pkt(d)) => dbg == d,
+            (Expect::Decode, AppRes::Decode(_)) => true,
+            (Expect::BadVersion(v), AppRes::IncompatibleVersion(w)) => v == w,
+            (Expect::Unmodelled, _) => true,
+            _ => false,
+        };
+        if !ok {
+            let gate = matches!(e, Expect::BadVersion(_)) || matches!(r, AppRes::IncompatibleVersion(_));
+            if gate {
+                vio.push(crate::oracle::v(
+                    "gate.wrong_decision",
+                    format!("{} gate {} via Builder: frame {} expected {:?}, the connection returned {:?}", tag, if verify { "on" } else { "off" }, i, e, r),
+                ));
+            }
+            break;
+        }
+        if matches!(e, Expect::BadVersion(_)) {
+            break;
+        }
+    }
+    (vio, true)
+}
+
 pub fn owns(clause: &str) -> bool {
     clause.starts_with("gate.")
 }
@@ -77,6 +203,7 @@ impl Prop for C09 {
             buffered: false,
             gate_calls: vec![],
             trace: false,
+            via_builder: None,
             inbound,
             reads,
             writes: vec![],
@@ -107,6 +234,16 @@ impl Prop for C09 {
                 f[18] = rng.byte();
             }
         }
+        // the application may itself ask for the version (TINY_VER with some request id): the
+        // reply carries that request id and is gated like any other VER
+        let asked: Option<u8> = if rng.chance(1, 4) { Some(*rng.pick(&[1u8, 7, 42, 255])) } else { None };
+        if let Some(r) = asked {
+            for f in frames.iter_mut() {
+                if f.len() == 20 && f[1] == 2 && rng.chance(2, 3) {
+                    f[2] = r;
+                }
+            }
+        }
         let (inbound, ends) = gen::concat(&frames);
         let mut lc = if rng.chance(1, 3) { LinkCfg::fault_free(rng) } else { LinkCfg::swarm(rng) };
         lc.early_eof_pm = 0;
@@ -121,7 +258,29 @@ impl Prop for C09 {
             .filter(|e| matches!(e, crate::scenario::ReadEv::Err(_) | crate::scenario::ReadEv::Stall(_)))
             .count();
         let verify = rng.chance(1, 2);
+        if rng.chance(1, 60) {
+            // the gate as applications get it: through the Builder, over real sockets
+            let short: Vec<u8> = frames.iter().take(6).flat_map(|f| f.iter().copied()).collect();
+            return StreamScenario {
+                imp,
+                mode,
+                verify_version: verify,
+                explicit_gate: true,
+                flushes: vec![],
+                buffered: false,
+                gate_calls: vec![],
+                trace: false,
+                via_builder: Some(rng.below(2) as u8),
+                inbound: short,
+                reads: vec![],
+                writes: vec![],
+                ops: vec![],
+            };
+        }
         let mut ops = Vec::new();
+        if let Some(r) = asked {
+            ops.push(AppOp::Write(gen::tiny(mode, r, 1)));
+        }
         if rng.chance(1, 4) {
             // the application may have asked for any protocol version in its own handshake:
             // the gate still accepts 9 only
@@ -167,6 +326,7 @@ impl Prop for C09 {
                 vec![]
             },
             trace: rng.chance(1, 8),
+            via_builder: None,
             inbound,
             reads,
             writes,
@@ -178,6 +338,23 @@ impl Prop for C09 {
         // In runs with dropped reads only the one thing cancellation can do to the gate counts
         // (a due version error that never surfaces); a wrong value or decision there may just
         // as well be the stream corrupted by a cancellation defect, which is C19's business.
+        if let Some(proto) = sc.via_builder {
+            let mut r = RunReport::default();
+            let (vio, ran) = crate::model::guarded(|| builder_gate_run(sc, proto)).unwrap_or((vec![], false));
+            if ran {
+                r.probe("gate_via_builder");
+                r.probe(match (proto, sc.imp) {
+                    (0, Imp::Blocking) => "builder_tcp_blocking",
+                    (0, Imp::Tokio) => "builder_tcp_tokio",
+                    (_, Imp::Blocking) => "builder_udp_blocking",
+                    (_, Imp::Tokio) => "builder_udp_tokio",
+                });
+            }
+            r.violations = vio;
+            r.nontrivial = true;
+            r.signature = 0xB111D ^ ((proto as u64) << 8) ^ sc.verify_version as u64 ^ ((sc.imp as u64) << 4) ^ ((sc.inbound.len() as u64) << 16);
+            return r;
+        }
         let cancels = sc.ops.iter().any(|o| matches!(o, AppOp::ReadCancel { .. }));
         let owns_here = |c: &str| if cancels { c == "gate.rejection_lost" } else { owns(c) };
         let mut r = exec_and_filter(sc, &owns_here);
@@ -190,6 +367,9 @@ impl Prop for C09 {
             r.probe("gate_off_explicit_runs");
         } else {
             r.probe("gate_off_default_runs");
+        }
+        if sc.ops.iter().any(|o| matches!(o, AppOp::Write(f) if f.len() == 4 && f[1] == 3 && f[3] == 1)) {
+            r.probe("application_asked_for_version");
         }
         if sc.gate_calls.len() >= 2 && sc.gate_calls.iter().any(|g| *g != sc.verify_version) {
             r.probe("gate_switched_back_and_forth");
@@ -241,6 +421,11 @@ impl Prop for C09 {
             "gate_off_default_runs",
             "handshake_asked_for_other_version",
             "gate_switched_back_and_forth",
+            "application_asked_for_version",
+            "builder_tcp_blocking",
+            "builder_tcp_tokio",
+            "builder_udp_blocking",
+            "builder_udp_tokio",
         ]
     }
 }
